@@ -198,3 +198,30 @@ Definition is_att_ok (a : attempt) : bool := match a with AttOk => true | _ => f
 (* NewClient: every non-positive KeepaliveInterval is replaced by the default (microseconds) *)
 Definition default_interval : Z := 30000000%Z.
 Definition client_interval (cfg : Z) : Z := if (cfg <=? 0)%Z then default_interval else cfg.
+
+(* ---- how the receive loop (Client.recv) ends a session, as far as the keep-alive is concerned ----
+   In every case it closes quit FIRST, before any application callback runs: the event handler and the
+   error callback are called synchronously and may take arbitrarily long (a StreamManager's handler
+   only returns once a new session is up). *)
+Inductive ending :=
+| EndReadError      (* NextPacket fails: connection lost, or an element it rejects *)
+| EndAnswerFails    (* the answer to an acknowledgement request cannot be written *)
+| EndStreamClose    (* the server's closing tag *)
+| EndStreamError.   (* a stream error from the server (RFC 6120 4.9.1.1: the stream is over) *)
+
+Inductive ract :=
+| RQuit               (* close(keepaliveQuit) *)
+| RRoute              (* the stream error handed to the router, synchronously *)
+| RStreamErrorEvent   (* event handler, StateStreamError *)
+| RErrCall            (* ErrorHandler *)
+| RDisconnectedEvent  (* event handler, StateDisconnected *)
+| RDisconnectCall.    (* c.Disconnect(), then the loop reads on until the connection is gone *)
+
+Definition recv_ending (e : ending) : list ract :=
+  match e with
+  | EndReadError | EndAnswerFails => [RQuit; RErrCall; RDisconnectedEvent]
+  | EndStreamClose => [RQuit; RDisconnectedEvent]
+  | EndStreamError => [RQuit; RRoute; RStreamErrorEvent; RErrCall; RDisconnectCall]
+  end.
+Definition is_callback (a : ract) : bool :=
+  match a with RStreamErrorEvent | RErrCall | RDisconnectedEvent | RRoute => true | _ => false end.
